@@ -551,6 +551,42 @@ module MgS = struct
     flush ()
 end
 
+
+(* ---------------- worlds domain (C17): the id allocator ---------------- *)
+module Wd = struct
+  open Worlds
+  let run () =
+    let st = ref w_init in
+    let ids : int list ref = ref [] in   (* id of world k, in creation order *)
+    let live : (int, int) Hashtbl.t = Hashtbl.create 16 in
+    let opn = ref 0 in
+    (try while true do
+      let l = input_line stdin in
+      if String.length l >= 4 && String.sub l 0 4 = "====" then
+        (print_endline l; st := w_init; ids := []; Hashtbl.reset live; opn := 0)
+      else match split_ws l with
+      | [] -> ()
+      | t :: _ when t.[0] = '#' -> ()
+      | opname :: args ->
+        Printf.printf "op %d %s\n" !opn l; incr opn;
+        (match opname, args with
+         | ("new" | "newshared" | "newdefault"), _ ->
+             let (s', r) = w_step !st WNew in
+             st := s';
+             (match r with Some i -> let k = Stdlib.List.length !ids in ids := !ids @ [int_of_n i]; Hashtbl.replace live k (int_of_n i);
+                                     Printf.printf "R w%d %d\n" k (int_of_n i)
+                         | None -> print_endline "R")
+         | "del", [k] -> let k = int_of_string k in
+             (match Hashtbl.find_opt live k with
+              | Some i -> let (s', _) = w_step !st (WDel (n_of_int i)) in st := s'; Hashtbl.remove live k
+              | None -> ());
+             print_endline "R"
+         | _ -> print_endline "R");
+        let ks = Stdlib.List.sort compare (Hashtbl.fold (fun k _ acc -> k :: acc) live []) in
+        Printf.printf "I%s\n" (String.concat "" (Stdlib.List.map (fun k -> Printf.sprintf " w%d=%d" k (Hashtbl.find live k)) ks))
+    done with End_of_file -> ())
+end
+
 let run_lines f =
   try
     while true do
@@ -566,4 +602,5 @@ let () =
   | _ :: "skelspec" :: _ -> SkS.run ()
   | _ :: "mgr" :: _ -> Mg.run ()
   | _ :: "mgrspec" :: _ -> MgS.run ()
+  | _ :: "worlds" :: _ -> Wd.run ()
   | _ -> prerr_endline "usage: runner <domain>"; exit 2
